@@ -616,7 +616,7 @@ func TestC04RetiringMemberBlockedEnd(t *testing.T) {
 				continue
 			}
 			idx := int(node - 1)
-			if xiOf(idx).Sign() != 0 {
+			if xiOf(idx).Sign() != 0 && out.Err == nil {
 				out.Err = fmt.Errorf("%s: retiring member %d is blocked reporting its completion (nobody reads its result channel yet) while its old share is still intact", proto, idx)
 				out.Sig = "reported-before-erasing:" + proto
 			}
@@ -627,11 +627,7 @@ func TestC04RetiringMemberBlockedEnd(t *testing.T) {
 			case <-edK:
 			case <-time.After(30 * time.Second):
 			}
-			released++
-			if out.Err != nil {
-				<-done
-				return out
-			}
+			released++ // (after a violation the remaining members are still released, so that the run can end)
 		}
 	})
 }
